@@ -37,80 +37,70 @@ pub fn toml_key() {
 }
 
 // ---- XML text escaping ----------------------------------------------------------------------------
+/// reference escaper, one byte at a time (straight-line code: a loop here would raise the harness-wide
+/// unwinding bound and with it the cost of the loops inside the function under test)
+fn ref_xml_push(out: &mut [u8; 24], n: &mut usize, c: u8) {
+    let ent: &[u8] = match c {
+        b'<' => b"&lt;",
+        b'>' => b"&gt;",
+        b'&' => b"&amp;",
+        b'"' => b"&quot;",
+        b'\'' => b"&apos;",
+        _ => b"",
+    };
+    if ent.is_empty() {
+        out[*n] = c;
+        *n += 1;
+    } else {
+        macro_rules! put { ($($k:literal),*) => { $( if $k < ent.len() { out[*n + $k] = ent[$k]; } )* }; }
+        put!(0, 1, 2, 3, 4, 5);
+        *n += ent.len();
+    }
+}
+fn xml_same(ob: &[u8], want: &[u8; 24], wn: usize) {
+    macro_rules! same { ($($k:literal),*) => { $( if $k < wn && $k < ob.len() { assert!(ob[$k] == want[$k], "C14.xml.text every markup character becomes its entity, everything else is copied"); } )* }; }
+    same!(0, 1, 2, 3, 4, 5, 6, 7, 8, 9, 10, 11, 12, 13, 14, 15, 16, 17);
+}
 macro_rules! xml_harness {
     ($name:ident, $len:literal) => {
-#[kani::proof]
-#[kani::unwind(26)]
-pub fn $name() {
-    use crate::xml::*;
-    // concrete length per harness, bytes symbolic
-    let s = SymStr::<3>::any_utf8_len($len);
-    #[cfg(verif_playback)]
-    {
-        println!("REPLAY-INPUT: text={:?}", s.as_str());
-        println!("REPLAY-JSONNET: std.manifestXmlJsonml([\"a\", {}])", s.jsonnet());
-        println!("REPLAY-EXPECT: nocrash");
-    }
-    let mut out = String::new();
-    escape_string_xml_buf(s.as_str(), &mut out);
-    let ob = out.as_bytes();
-    // decode
-    let mut dec = [0u8; 24];
-    let mut dn = 0;
-    let mut i = 0;
-    let mut guard = 0;
-    let mut ok = true;
-    while i < ob.len() && guard < 24 {
-        guard += 1;
-        let c = ob[i];
-        if c == b'<' || c == b'>' || c == b'"' || c == b'\'' {
-            ok = false;
-            break;
+        #[kani::proof]
+        #[kani::unwind(9)]
+        pub fn $name() {
+            use crate::xml::*;
+            // concrete length per harness, bytes symbolic
+            let s = SymStr::<3>::any_utf8_len($len);
+            #[cfg(verif_playback)]
+            {
+                println!("REPLAY-INPUT: text={:?}", s.as_str());
+                println!("REPLAY-JSONNET: std.manifestXmlJsonml([\"a\", {}])", s.jsonnet());
+                println!("REPLAY-EXPECT: nocrash");
+            }
+            let mut want = [0u8; 24];
+            let mut wn = 0usize;
+            if $len > 0 {
+                ref_xml_push(&mut want, &mut wn, s.b[0]);
+            }
+            if $len > 1 {
+                ref_xml_push(&mut want, &mut wn, s.b[1]);
+            }
+            if $len > 2 {
+                ref_xml_push(&mut want, &mut wn, s.b[2]);
+            }
+            let mut out = String::new();
+            escape_string_xml_buf(s.as_str(), &mut out);
+            let ob = out.as_bytes();
+            assert!(ob.len() == wn, "C14.xml.len every markup character becomes its entity, everything else is copied");
+            xml_same(ob, &want, wn);
+            kani::cover!(wn > $len, "markup character reached");
+            kani::cover!(wn == $len, "text without markup reached");
         }
-        if c == b'&' {
-            let rest = &ob[i..];
-            let (d, l) = if rest.starts_with(b"&lt;") {
-                (b'<', 4)
-            } else if rest.starts_with(b"&gt;") {
-                (b'>', 4)
-            } else if rest.starts_with(b"&amp;") {
-                (b'&', 5)
-            } else if rest.starts_with(b"&quot;") {
-                (b'"', 6)
-            } else if rest.starts_with(b"&apos;") {
-                (b'\'', 6)
-            } else {
-                ok = false;
-                break;
-            };
-            dec[dn] = d;
-            dn += 1;
-            i += l;
-        } else {
-            dec[dn] = c;
-            dn += 1;
-            i += 1;
-        }
-    }
-    assert!(ok, "C14.xml.wellformed raw markup character or stray & in escaped text");
-    assert!(dn == s.n, "C14.xml.roundtrip_len un-escaping gives a different length");
-    let mut k = 0;
-    while k < 3 {
-        if k < s.n {
-            assert!(dec[k] == s.b[k], "C14.xml.roundtrip un-escaping gives a different text");
-        }
-        k += 1;
-    }
-    kani::cover!($len < 3 || (s.b[0] == b'&' && s.b[2] == b'<'), "two markup characters reached");
-    kani::cover!(ob.len() == $len, "text without markup reached");
-}
     };
 }
-//@harness name=xml_escape_1 tier=quick timeout=600 unwind=26 desc="XML escaping: no raw < > \" ' in the output, & only as the start of one of the five predefined entities, and un-escaping gives the input back" bounds="every well-formed UTF-8 string of exactly 1 byte"
+//@harness name=xml_escape_1 tier=quick timeout=600 unwind=9 desc="XML escaping: the output is the input with each of < > & \" ' replaced by its predefined entity (hence no raw markup, and un-escaping gives the input back)" bounds="every well-formed UTF-8 string of exactly 1 byte"
 xml_harness!(xml_escape_1, 1);
-//@harness name=xml_escape_2 tier=quick timeout=900 unwind=26 desc="same" bounds="every well-formed UTF-8 string of exactly 2 bytes"
+//@harness name=xml_escape_2 tier=quick timeout=900 unwind=9 desc="same" bounds="every well-formed UTF-8 string of exactly 2 bytes"
 xml_harness!(xml_escape_2, 2);
-//@harness name=xml_escape_3 tier=quick timeout=1200 unwind=26 desc="same" bounds="every well-formed UTF-8 string of exactly 3 bytes"
+//@harness name=xml_escape_3 tier=quick timeout=1200 unwind=9 desc="same" bounds="every well-formed UTF-8 string of exactly 3 bytes"
 xml_harness!(xml_escape_3, 3);
 
 // ---- YAML bare keys -------------------------------------------------------------------------------
@@ -146,13 +136,15 @@ fn yaml11_special(b: &[u8; YN], n: usize) -> bool {
     if n == 0 {
         return true;
     }
-    const WORDS: [&[u8]; 25] = [
+    const WORDS: [&[u8]; 24] = [
         b"y", b"Y", b"yes", b"Yes", b"YES", b"n", b"N", b"no", b"No", b"NO", b"true", b"True", b"TRUE", b"on", b"On", b"ON",
-        b"off", b"Off", b"OFF", b"null", b"Null", b"NULL", b"-", b"---", b"...",
+        b"off", b"Off", b"OFF", b"null", b"Null", b"NULL", b"-", b"---",
     ];
     // straight-line (a loop here would force the harness-wide unwinding bound up)
     macro_rules! any_word { ($($i:literal),*) => { $( if eq(b, n, WORDS[$i]) { return true; } )* }; }
-    any_word!(0, 1, 2, 3, 4, 5, 6, 7, 8, 9, 10, 11, 12, 13, 14, 15, 16, 17, 18, 19, 20, 21, 22, 23, 24);
+    any_word!(0, 1, 2, 3, 4, 5, 6, 7, 8, 9, 10, 11, 12, 13, 14, 15, 16, 17, 18, 19, 20, 21, 22, 23);
+    // "..." is a document-end marker only when followed by white space; as a key it is followed by ":"
+    // and every YAML 1.1 reader takes it as a plain string (an earlier version of this list had it: false alarm)
     if eq(b, n, b".inf") || eq(b, n, b".Inf") || eq(b, n, b".INF") || eq(b, n, b".nan") || eq(b, n, b".NaN") || eq(b, n, b".NAN") {
         return true;
     }
